@@ -128,6 +128,27 @@ pub fn shard_dir_name(id: usize) -> String {
 /// Finds (hash, sec) mapping to the wanted shard pair.
 pub fn solve_key(t: &mut Tape, n: usize, want: (usize, usize)) -> (u64, u64) {
     let n = n.max(2);
+    if n > 1024 {
+        // rejection sampling needs ~n tries per coordinate: invert the mixers
+        // instead (odd multiplier => bijection on u64)
+        fn inv_odd(m: u64) -> u64 {
+            let mut x = m;
+            for _ in 0..6 {
+                x = x.wrapping_mul(2u64.wrapping_sub(m.wrapping_mul(x)));
+            }
+            x
+        }
+        let lo = |j: usize| -> u64 { (((j as u128) << 64).div_ceil(n as u128)).min(u64::MAX as u128) as u64 };
+        let width = u64::MAX / n as u64;
+        let pre = |j: usize, t: &mut Tape, mult: u64, add: u64| -> u64 {
+            let y = lo(j).wrapping_add(t.draw(width.max(2) - 1));
+            y.wrapping_sub(add).wrapping_mul(inv_odd(mult))
+        };
+        let h = pre(want.0, t, PRIMARY_MULT, PRIMARY_ADD);
+        let s = pre(want.1, t, SECONDARY_MULT, SECONDARY_ADD);
+        assert_eq!(ref_shards(h, s, n), want, "solve_key: direct inversion");
+        return (h, s);
+    }
     let mut h = t.draw_u64();
     let mut guard = 0;
     while ref_reduce(h.wrapping_mul(PRIMARY_MULT).wrapping_add(PRIMARY_ADD), n) != want.0 {
